@@ -501,6 +501,22 @@ MUTATORS = {
 }
 
 
+def effectively_held(facts, M, body, bb, cls, mode, depth=0, seen=None):
+    """a guard of (cls, mode) is held when the terminator of bb executes: in this body, or - for a helper - at
+    every call site of this function (recursively)"""
+    seen = seen if seen is not None else set()
+    at_term, entry = M.held(body)
+    if any(c == cls and m == mode for (_l, c, m) in at_term.get(bb, set())):
+        return True
+    if depth > 3 or body.id in seen or body.kind == "Closure":
+        return False
+    seen.add(body.id)
+    callers = [x for x in facts.callers().get(body.id, []) if x[2] == "call"]
+    if not callers or body.vis == "pub":
+        return False
+    return all(effectively_held(facts, M, facts.bodies[cid], cb, cls, mode, depth + 1, seen) for (cid, cb, k) in callers)
+
+
 def l2(facts, rep, M):
     """mutation of the store / rollback log only under the access write guard"""
     n = 0
@@ -514,7 +530,7 @@ def l2(facts, rep, M):
                 continue
             n += 1
             H = at_term.get(b, set())
-            ok = any(cls == ACCESS and mode == "W" for (_l, cls, mode) in H)
+            ok = any(cls == ACCESS and mode == "W" for (_l, cls, mode) in H) or effectively_held(facts, M, body, b, ACCESS, "W")
             why = "access write guard held"
             if not ok and body.id == "nomt::FinishedSession::commit":
                 pass
